@@ -71,10 +71,15 @@ FLATTEN = {
 UNSUCCESSFUL = ("failure", "error", "uxsuccess")
 
 
+SKIP_DECOS = ["none", "method @skip", "class @skip", "method @skipIf(True)", "class @skipUnless(False)",
+              "method @unittest.skip", "class @unittest.skip"]
+
+
 def make_case(su, body, td, cleanups, log, expect_mismatch=False, force_failure=False,
-              skip_deco=0, hooks=None):
+              skip_deco=0, hooks=None, skip_reason="deco", xf_deco=False):
     """cleanups: list of kinds, registered in setUp (before the raise) in order c1, c2, ...
-    skip_deco: 0 none, 1 method decorated with skip, 2 class decorated.
+    skip_deco: index into SKIP_DECOS (odd = method decorated, even = class decorated), with skip_reason.
+    xf_deco: the test method is decorated with unittest.expectedFailure.
     hooks: optional dict stage-name -> callable(case) run at the start of that stage."""
     hooks = hooks or {}
 
@@ -115,10 +120,16 @@ def make_case(su, body, td, cleanups, log, expect_mismatch=False, force_failure=
             return LoggingTestResult(log_to=self._default_log)
 
     Gen.__qualname__ = "Gen"
-    if skip_deco == 1:
-        Gen.test_it = testtools.skip("deco")(Gen.test_it)
-    if skip_deco == 2:
-        Gen = testtools.skip("classdeco")(Gen)  # class decorator sets __unittest_skip__
+    if xf_deco:
+        Gen.test_it = unittest.expectedFailure(Gen.test_it)
+    if skip_deco:
+        deco = {1: lambda: testtools.skip(skip_reason), 2: lambda: testtools.skip(skip_reason),
+                3: lambda: testtools.skipIf(True, skip_reason), 4: lambda: testtools.skipUnless(False, skip_reason),
+                5: lambda: unittest.skip(skip_reason), 6: lambda: unittest.skip(skip_reason)}[skip_deco]()
+        if skip_deco % 2:
+            Gen.test_it = deco(Gen.test_it)
+        else:
+            Gen = deco(Gen)  # class decorator sets __unittest_skip__
     case = Gen("test_it")
     case._default_log = []
     return case
